@@ -4,8 +4,8 @@ import json, subprocess
 
 CLAIMS = {
  "C01": dict(
-  text="Deductive proof (VCs from the real Go source, discharged by z3/cvc5) that every mutator of the per-session snapshot list keeps it dense, strictly UID-ascending and index-consistent, with whole-view postconditions (insert appends exactly one message, remove shifts exactly one position, lookups return the position they claim). This is the inductive core of 'announced view = answered view'; the responder layer that emits EXISTS/EXPUNGE/FETCH is not yet under contract.",
-  note="Assumes session confinement of State (C19), the dependency specs of slices.BinarySearchFunc and xslices.Insert, mathematical heap model (no goroutines). Undecided: responders (targetedExists/expunge/fetch handle), flushResponses, response.Merge, snapshot construction from SQL rows.",
+  text="Deductive proof (VCs from the real Go source, discharged by z3/cvc5) that every mutator of the per-session snapshot list keeps it dense, strictly UID-ascending and index-consistent, with whole-view postconditions (insert appends exactly one message, remove shifts exactly one position, lookups return the position they claim). This is the inductive core of 'announced view = answered view'; the responders (expunge / targetedExists / fetch handle) and popResponders are under contract as well; response.Merge never merges into, skips over, drops or moves an EXPUNGE response (every implementation of mergeWith / canSkip is proved to refuse an EXPUNGE, appendOrMergeResponse keeps every EXPUNGE at its index, Merge keeps every one of them).",
+  note="Assumes session confinement of State (C19), the dependency specs of slices.BinarySearchFunc and xslices.Insert, mathematical heap model (no goroutines). The responders are under contract too (EXPUNGE removes exactly the message and announces its old position, EXISTS grows the view by one and announces the new count, FETCH keeps positions and never aliases the responder's flag map); State.close drops the view and every queued response. Undecided: flushResponses (the loop that runs the responders), snapshot construction from SQL rows; known finding: a message inserted in the middle of the view is announced by a bare EXISTS.",
   ref="DESIGN.md §4 C01"),
 
 
@@ -31,7 +31,7 @@ CLAIMS = {
   ref="DESIGN.md §4 C04"),
  "C05": dict(
   text="Deductive proof that State.popResponders releases everything in order when expunges are permitted and otherwise releases no *expunge responder, holds back only *expunge/*targetedExists responders, loses or duplicates nothing (count) and keeps every expunge queued; plus whole-module syntactic obligations: only expunge.handle may construct an EXPUNGE response, flush(…, permitExpunge=true) may only be called from the handlers of commands that permit EXPUNGE, State.flushResponses(…, true) only from beginIdle / Mailbox.Flush; every implementation of Responder.getMessageID is effect-free.",
-  note="Assumes session confinement (C19). Mailbox.ExpungeIssued is proved to answer exactly 'an *expunge responder is queued'. Undecided: order preservation inside pop/rem beyond the counted partition, the held-exists-after-held-expunge rule, that every FETCH/STORE/SEARCH handler consults ExpungeIssued, responder handle bodies.",
+  note="Assumes session confinement (C19). Mailbox.ExpungeIssued is proved to answer exactly 'an *expunge responder is queued'. response.Merge keeps every EXPUNGE response (see C01). Undecided: order preservation inside pop/rem beyond the counted partition, the held-exists-after-held-expunge rule, that every FETCH/STORE/SEARCH handler consults ExpungeIssued, responder handle bodies.",
   ref="DESIGN.md §4 C05"),
  "C08": dict(
   text="Deductive proof, for all list lengths, of the Go side of all read/write operations of the SQLite implementation (69 functions): placeholder/argument agreement of every statement, chunk arguments, GenSQLIn called with a positive count, result accumulation loops, no open safety obligation. The SQL strings are not interpreted.",
